@@ -8,7 +8,8 @@ if ! git diff --quiet; then echo "repo dirty, refusing"; exit 2; fi
 if ! git apply "$PATCH"; then echo "patch does not apply: $PATCH"; exit 2; fi
 trap 'git -C /repo checkout -- . >/dev/null 2>&1' EXIT
 for P in "$@"; do
-  OUT=$(cd /verif && ./check "$P" --tier quick 2>&1)
+  # sensitivity runs only need the verdict: cap shrinking
+  OUT=$(cd /verif && VH_SHRINK_ITERS=${VH_SHRINK_ITERS:-150} ./check "$P" --tier quick 2>&1)
   RC=$?
   # evidence written by a mutated run must not stay
   if echo "$OUT" | grep -q "^VIOLATION property=$P"; then echo "$(basename "$PATCH") $P CAUGHT ($(echo "$OUT" | grep -m1 'failure\[' | cut -c1-160))";
